@@ -402,4 +402,5 @@ func c06(c *wk.Ctx) {
 		}
 	})
 	c.Cases("lenient", c.Pick(60, 3000), func(i int, rng *rand.Rand) { c06lenient(c, i, rng) })
+	c.Cases("slow", c.Pick(4, 60), func(i int, rng *rand.Rand) { c06slow(c, i, rng) })
 }
